@@ -121,6 +121,10 @@ def gen_program(rng, i):
         first = next((n for n, r in it.roles.items() if r["parent"] == "targets"), None)
         if first is not None and it.roles[first]["targets"] and len(it.roles[first]["targets"]) < 10 \
                 and it.roles[first]["threshold"] <= len(it.roles[first]["keys"]):
+            # the top-level role is being edited since from_repo: it is signed before the editor moves to the delegated role
+            prog.append({"op": "versions", "targets": vers[0]})
+            prog.append({"op": "expires", "targets": 86400 * 50})
+            prog.append({"op": "sign_targets_editor", "keys": [2]})
             prog.append({"op": "change_delegated_targets", "role": first})
             edit_names(it.roles[first]["targets"], first)
             nv = it.roles[first]["version"] + 5
